@@ -282,31 +282,24 @@ macro_rules! scalar_window {
         }
     };
 }
-/// Accept-set harness for the fast-path engines (broadword, AVX2): they only
-/// ever answer "valid" themselves and otherwise defer to the scalar validator,
-/// so what can go wrong is accepting an ill-formed string. Result must be Ok
-/// exactly for well-formed input, and the reported error the documented one.
-macro_rules! engine_window {
-    ($name:ident, $n:expr, $at:expr, $w:expr, $filler:expr, $engine:ident, $($stub:meta),*) => {
+/// Accept-kernel harness for the fast paths (broadword, AVX2). Both engines are
+/// "kernel accepts ? Ok : scalar validator", so the engine result differs from the
+/// scalar result only if the kernel accepts an ill-formed string. The kernels are
+/// driven directly (verif-hooks), without the scalar fallback: accepted => the
+/// input is well-formed (soundness, what the property needs) and well-formed =>
+/// accepted (so the fast path is also complete on this bound).
+macro_rules! kernel_window {
+    ($name:ident, $n:expr, $at:expr, $w:expr, $filler:expr, $kernel:expr, $($stub:meta),*) => {
         #[kani::proof]
         #[kani::unwind(10)]
-        #[kani::stub(succinctly::text::utf8::err_at, err_at_stub)]
         $(#[$stub])*
         fn $name() {
             fill_window!(b, w, $n, $at, $w, $filler);
-            let v = valid_up_to(&b);
-            let e = $engine(&b);
-            match &e {
-                Ok(()) => assert!(v == $n),
-                Err(err) => {
-                    assert!(v < $n);
-                    let (kind, at) = violated_rule(&b, v);
-                    assert!(err.kind == kind && err.offset == at);
-                }
-            }
-            kani::cover!(e.is_ok() && w[0] >= 0xE0);
-            kani::cover!(e.is_err() && v > $at);
-            core::mem::forget(e);
+            let valid = valid_up_to(&b) == $n;
+            let acc: bool = $kernel(&b);
+            assert!(acc == valid);
+            kani::cover!(acc && w[0] >= 0xE0);
+            kani::cover!(!acc && w[0] < 0x80);
         }
     };
 }
@@ -316,14 +309,21 @@ const MULTI_F: &[u8] = "a\u{e9}\nb\u{4e2d}c\u{1f600}d\n".as_bytes();
 scalar_window!(c13_scalar_win17_at9, 17, 9, 6, ASCII_F);
 scalar_window!(c13_scalar_win20_at12, 20, 12, 6, ASCII_F);
 scalar_window!(c13_scalar_win22_at10_multi, 22, 10, 4, MULTI_F);
-engine_window!(c13_broadword_win41_at30, 41, 30, 6, ASCII_F, validate_utf8_broadword,);
-engine_window!(c13_broadword_win36_at0, 36, 0, 5, ASCII_F, validate_utf8_broadword,);
-engine_window!(c13_broadword_win12_at4, 12, 4, 6, ASCII_F, validate_utf8_broadword,);
 
+fn bw(b: &[u8]) -> bool {
+    succinctly::verif_hooks::utf8_broadword_accepts(b)
+}
+kernel_window!(c13_broadword_win41_at30, 41, 30, 6, ASCII_F, bw,);
+kernel_window!(c13_broadword_win36_at0, 36, 0, 5, ASCII_F, bw,);
+kernel_window!(c13_broadword_win12_at4, 12, 4, 6, ASCII_F, bw,);
+kernel_window!(c13_broadword_win40_at5_multi, 40, 5, 4, MULTI_F, bw,);
+
+fn avx2(b: &[u8]) -> bool {
+    unsafe { succinctly::verif_hooks::utf8_avx2_accepts(b) }
+}
 macro_rules! avx2_window {
     ($name:ident, $n:expr, $at:expr, $w:expr, $filler:expr) => {
-        engine_window!($name, $n, $at, $w, $filler, validate_utf8_simd,
-            kani::stub(std_detect::detect::__is_feature_detected::avx2, yes),
+        kernel_window!($name, $n, $at, $w, $filler, avx2,
             kani::stub(core::arch::x86_64::_mm256_max_epu8, models::mm256_max_epu8),
             kani::stub(core::arch::x86_64::_mm256_testz_si256, models::mm256_testz_si256));
     };
@@ -335,12 +335,32 @@ avx2_window!(c13_avx2_win34_at0, 34, 0, 6, ASCII_F);
 avx2_window!(c13_avx2_win65_at60, 65, 60, 5, ASCII_F);
 avx2_window!(c13_avx2_win40_at29_multi, 40, 29, 4, MULTI_F);
 avx2_window!(c13_avx2_win8_at2, 8, 2, 6, ASCII_F);
+avx2_window!(c13_avx2_win32_at24, 32, 24, 8, ASCII_F);
+avx2_window!(c13_avx2_win40_at20_w16, 40, 20, 16, ASCII_F);
+avx2_window!(c13_avx2_full33, 33, 0, 33, ASCII_F);
+avx2_window!(c13_avx2_full66, 66, 0, 66, ASCII_F);
 
-/// The public dispatcher with the AVX2 probe chosen by the solver.
-engine_window!(c13_dispatch_win34_at29, 34, 29, 5, ASCII_F, validate_utf8,
-    kani::stub(std_detect::detect::__is_feature_detected::avx2, any_bool),
-    kani::stub(core::arch::x86_64::_mm256_max_epu8, models::mm256_max_epu8),
-    kani::stub(core::arch::x86_64::_mm256_testz_si256, models::mm256_testz_si256));
+/// The dispatching wrappers add only "kernel accepts ? Ok : scalar": decided on
+/// a short input where the whole composition fits.
+#[kani::proof]
+#[kani::unwind(10)]
+#[kani::stub(succinctly::text::utf8::err_at, err_at_stub)]
+#[kani::stub(std_detect::detect::__is_feature_detected::avx2, any_bool)]
+#[kani::stub(core::arch::x86_64::_mm256_max_epu8, models::mm256_max_epu8)]
+#[kani::stub(core::arch::x86_64::_mm256_testz_si256, models::mm256_testz_si256)]
+fn c13_dispatch_len4() {
+    let b: [u8; 4] = kani::any();
+    let r = validate_utf8_scalar(&b);
+    let d = validate_utf8(&b);
+    let s = validate_utf8_simd(&b);
+    assert!(same(&r, &d));
+    assert!(same(&r, &s));
+    kani::cover!(r.is_ok() && b[0] >= 0xF0);
+    kani::cover!(r.is_err());
+    core::mem::forget(r);
+    core::mem::forget(d);
+    core::mem::forget(s);
+}
 
 /// encode/decode of single code points: every u32.
 #[kani::proof]
